@@ -1,8 +1,98 @@
-(** C08 -- property theorems only (placeholder while the proofs are being written) *)
-From Coq Require Import Ascii String List Bool PArith.
+(** C08 -- property theorems only.  Each is closed by [exact] of a lemma proved in the other
+    files of this directory and followed by Print Assumptions.
+    Model: GridEdit.v (t2grid edit state machine).  Invariant: Inv.v. *)
+From Coq Require Import Ascii String List Bool PArith NArith FMapPositive Permutation.
 From PTBase Require Import Exn PyStr.
-From P Require Import Assoc GridEdit.
+From P Require Import Assoc GridEdit GridLemmas Inv InvRock InvBlock InvConn InvRename InvReorder Reach Witness.
 Import ListNotations.
-Theorem run_nil : run empty [] = Ok empty.
-Proof. exact eq_refl. Qed.
-Print Assumptions run_nil.
+Open Scope list_scope.
+
+(** the empty grid is consistent *)
+Theorem grid_inv_init : Inv empty.
+Proof. exact inv_init. Qed.
+Print Assumptions grid_inv_init.
+
+(** one preservation theorem per edit, under the weakest precondition the faithful model needs *)
+Theorem add_rocktype_preserves : forall g n g', Inv g -> add_rocktype g n = Ok g' -> Inv g'.
+Proof. exact add_rocktype_inv. Qed.
+Print Assumptions add_rocktype_preserves.
+Theorem delete_rocktype_preserves : forall g n g', Inv g -> rock_not_used g n -> delete_rocktype g n = Ok g' -> Inv g'.
+Proof. exact delete_rocktype_inv. Qed.
+Print Assumptions delete_rocktype_preserves.
+Theorem clean_rocktypes_preserves : forall g g', Inv g -> clean_rocktypes g = Ok g' -> Inv g'.
+Proof. exact clean_rocktypes_inv. Qed.
+Print Assumptions clean_rocktypes_preserves.
+Theorem rename_rocktype_preserves : forall g a b g', Inv g -> no_stale_rock g a -> rename_rocktype g a b = Ok g' -> Inv g'.
+Proof. exact rename_rocktype_inv. Qed.
+Print Assumptions rename_rocktype_preserves.
+Theorem add_block_preserves : forall g n rk g', Inv g -> replaced_unconnected g n -> add_block g n rk = Ok g' -> Inv g'.
+Proof. exact add_block_inv. Qed.
+Print Assumptions add_block_preserves.
+Theorem delete_block_preserves : forall g n g', Inv g -> delete_block g n = Ok g' -> Inv g'.
+Proof. exact delete_block_inv. Qed.
+Print Assumptions delete_block_preserves.
+Theorem demote_block_preserves : forall ns g g', Inv g -> demote_block g ns = Ok g' -> Inv g'.
+Proof. exact demote_block_inv. Qed.
+Print Assumptions demote_block_preserves.
+Theorem add_connection_preserves : forall g n0 n1 g', Inv g -> add_connection g n0 n1 = Ok g' -> Inv g'.
+Proof. exact add_connection_inv. Qed.
+Print Assumptions add_connection_preserves.
+Theorem delete_connection_preserves : forall g k g', Inv g -> delete_connection g k = Ok g' -> Inv g'.
+Proof. exact delete_connection_inv. Qed.
+Print Assumptions delete_connection_preserves.
+Theorem rename_blocks_preserves : forall g m g', Inv g -> inj_on_blocks g m -> rename_blocks g m = Ok g' -> Inv g'.
+Proof. exact rename_blocks_inv. Qed.
+Print Assumptions rename_blocks_preserves.
+Theorem reorder_preserves : forall g bns cns g', Inv g -> reorder g bns cns = Ok g' ->
+  Permutation (blist g) (blist g') -> Permutation (clist g) (clist g') -> Inv g'.
+Proof. exact reorder_inv. Qed.
+Print Assumptions reorder_preserves.
+(** input-side form for the block half: the names given are a permutation of the current block names *)
+Theorem reorder_blocks_preserves : forall g bns g', Inv g -> Permutation bns (map (bn g) (blist g)) ->
+  reorder g bns [] = Ok g' -> Inv g'.
+Proof. exact reorder_blocks_inv. Qed.
+Print Assumptions reorder_blocks_preserves.
+
+(** any edit, then any sequence of edits: induction over the op list, no length bound *)
+Theorem grid_inv_step : forall g o g', Inv g -> pre g o -> step g o = Ok g' -> Inv g'.
+Proof. exact step_inv. Qed.
+Print Assumptions grid_inv_step.
+Theorem grid_inv_reachable : forall ops g g', Inv g -> pre_all g ops -> run g ops = Ok g' -> Inv g'.
+Proof. exact inv_reachable. Qed.
+Print Assumptions grid_inv_reachable.
+Theorem grid_inv_reachable_fold : forall ops g g', Inv g -> pre_all g ops ->
+  fold_left (fun r o => bind r (fun g1 => step g1 o)) ops (Ok g) = Ok g' -> Inv g'.
+Proof. exact inv_reachable_fold. Qed.
+Print Assumptions grid_inv_reachable_fold.
+
+(** renaming with any one-to-one name map, swaps and cycles included, loses no block *)
+Theorem rename_bijective_loses_no_block : forall g m, Inv g -> inj_on_blocks g m ->
+  exists g', rename_blocks g m = Ok g' /\ Inv g' /\ blist g' = blist g /\
+             forall i, In i (blist g) -> bn g' i = mapname m (bn g i) /\ bget g' (mapname m (bn g i)) = Some i.
+Proof. exact rename_bijective_total. Qed.
+Print Assumptions rename_bijective_loses_no_block.
+Theorem rename_never_raises : forall g m, Inv g -> exists g', rename_blocks g m = Ok g'.
+Proof. exact rename_blocks_total. Qed.
+Print Assumptions rename_never_raises.
+
+(** the three preconditions cannot be dropped: the faithful model carries the listed findings *)
+Theorem add_block_replacing_connected_block_breaks_inv :
+  exists g n rk g', Inv g /\ add_block g n rk = Ok g' /\ ~ Inv g'.
+Proof. exact add_block_replace_refuted. Qed.
+Print Assumptions add_block_replacing_connected_block_breaks_inv.
+Theorem delete_rocktype_in_use_breaks_inv :
+  exists g n g', Inv g /\ delete_rocktype g n = Ok g' /\ ~ Inv g'.
+Proof. exact delete_rocktype_in_use_refuted. Qed.
+Print Assumptions delete_rocktype_in_use_breaks_inv.
+Theorem rename_rocktype_with_stale_object_breaks_inv :
+  exists g a b g', Inv g /\ rename_rocktype g a b = Ok g' /\ ~ Inv g'.
+Proof. exact rename_rocktype_stale_refuted. Qed.
+Print Assumptions rename_rocktype_with_stale_object_breaks_inv.
+
+(** the hypotheses are met by a non-trivial grid: two connected blocks, renamed by a swap *)
+Theorem example_pair_consistent : Inv g_pair.
+Proof. exact g_pair_inv. Qed.
+Print Assumptions example_pair_consistent.
+Theorem example_swap_is_one_to_one : inj_on_blocks g_pair [(a1, b1); (b1, a1)].
+Proof. exact swap_is_injective. Qed.
+Print Assumptions example_swap_is_one_to_one.
